@@ -458,6 +458,8 @@ func symDiff(a, b []string) []string {
 	return out
 }
 
+const hangAfter = 25 * time.Second
+
 const levels = 4 // stored_0 (only the invalid leftovers) ⊂ stored_1 ⊂ stored_2 ⊂ stored_3 (everything)
 
 func runAPICase(ctx context.Context, w *rec.Writer, fm *farm, s *scen.Scenario, seed uint64, tier string) {
@@ -660,14 +662,42 @@ func runAPICase(ctx context.Context, w *rec.Writer, fm *farm, s *scen.Scenario, 
 			atoms: func(_, _ string) []checkQ { return nil }})
 	}
 
-	// a spurious "cancelled" / deadline answer (no client cancelled anything) is retried and counted
+	// a spurious "cancelled" / deadline answer (no client cancelled anything) is retried and counted;
+	// a call that does not return at all (observed: the ListObjects pipeline blocked for ever in
+	// Pipeline.Close, waiting with context.Background) is abandoned after hangAfter and reported
+	hung := map[string]bool{}
 	for pi := range probes {
 		inner := probes[pi].ask
+		key := probes[pi].api + "/" + probes[pi].srv.name
+		label := probes[pi].label
 		probes[pi].ask = func(ctx context.Context, t target, ct []scen.Tuple) string {
-			out := inner(ctx, t, ct)
+			if hung[key] {
+				return "Ehang"
+			}
+			call := func() string {
+				ch := make(chan string, 1)
+				go func() { ch <- inner(ctx, t, ct) }()
+				select {
+				case out := <-ch:
+					return out
+				case <-time.After(hangAfter):
+					return "Ehang"
+				}
+			}
+			out := call()
 			for k := 0; k < 3 && isTransient(out); k++ {
 				w.Stat("transient_"+out+"_retried", 1)
-				out = inner(ctx, t, ct)
+				out = call()
+			}
+			if out == "Ehang" {
+				hung[key] = true
+				w.Stat("hung_"+key, 1)
+				var cts []string
+				for _, x := range ct {
+					cts = append(cts, x.Key()+condSuffix(x))
+				}
+				w.Known("request_never_returns", fmt.Sprintf("%s on server %s did not return within %s (store %s, contextual tuples %v)", label, key, hangAfter, t.env.StoreID, cts),
+					map[string]any{"kind": "api", "seed": seed, "scenario": s, "text": s.String()})
 			}
 			return out
 		}
@@ -688,6 +718,10 @@ func runAPICase(ctx context.Context, w *rec.Writer, fm *farm, s *scen.Scenario, 
 	judge := func(p probe, pi, i, j int, phase, got string) {
 		want := ref[pi][j]
 		w.Stat("comparisons_"+p.api, 1)
+		if got == "Ehang" || want == "Ehang" {
+			w.Stat("comparisons_skipped_request_hung", 1)
+			return
+		}
 		if isErr(got) && isErr(want) {
 			w.Stat("comparisons_skipped_both_errors", 1)
 			return
@@ -775,7 +809,7 @@ func runAPICase(ctx context.Context, w *rec.Writer, fm *farm, s *scen.Scenario, 
 				p := probes[pis[k]]
 				w.Stat("requests_batch_items", 1)
 				want := ref[pis[k]][js[k]]
-				if sameOutcome(got, want) {
+				if sameOutcome(got, want) || want == "Ehang" {
 					continue
 				}
 				bp := p
